@@ -10,6 +10,7 @@ import (
 	"path/filepath"
 	"strconv"
 	"strings"
+	"unicode"
 )
 
 // buildOk returns true if a file or script matches build constraints
@@ -96,13 +97,16 @@ func buildOptionOk(ctx *build.Context, tag string) bool {
 // buildTagOk returns true if a build tag matches, false otherwise
 // if first character is !, result is negated.
 func buildTagOk(ctx *build.Context, s string) (r bool) {
-	// As for the toolchain (go/build/constraint), an empty word, "!" and "!!x" never match.
-	if s == "" || s == "!" || strings.HasPrefix(s, "!!") {
-		return false
+	// As for the toolchain (go/build/constraint), a malformed word stands for "ignore".
+	if s == "!" || strings.HasPrefix(s, "!!") {
+		return matchTag(ctx, "ignore")
 	}
-	not := s[0] == '!'
+	not := strings.HasPrefix(s, "!")
 	if not {
 		s = s[1:]
+	}
+	if !isValidTag(s) {
+		s = "ignore"
 	}
 	switch {
 	case matchTag(ctx, s):
@@ -119,6 +123,19 @@ func buildTagOk(ctx *build.Context, s string) (r bool) {
 		r = !r
 	}
 	return
+}
+
+// isValidTag reports whether the word is a valid build tag: letters, digits, _ and . only.
+func isValidTag(word string) bool {
+	if word == "" {
+		return false
+	}
+	for _, c := range word {
+		if !unicode.IsLetter(c) && !unicode.IsDigit(c) && c != '_' && c != '.' {
+			return false
+		}
+	}
+	return true
 }
 
 // setYaegiTags scans a comment group for "yaegi:tags tag1 tag2 ..." lines
